@@ -122,6 +122,9 @@ def handleHeap (ws : List String) : String :=
   | "invert" :: head :: rest => withTree rest fun t h => do
       let head ← head.toNat?
       some (heapOut t head (Heap.edgeInvert h head))
+  | "suppress" :: rest => withTree rest fun t h =>
+      -- the loop of `suppress_unifurcations` over the post-order of the tree; read back from the node that is the seed afterwards
+      some (heapOut t (sup t).id (some (Heap.supLoop h (Heap.postIds t))))
   | "reseed" :: target :: rest => withTree rest fun t h => do
       let target ← target.toNat?
       some (heapOut t target (Heap.reseedChain h (t.size + 2) target))
